@@ -452,6 +452,15 @@ fn eval(a: &[&str]) -> String {
             let (lb, ub, est) = match a[1] {
                 "u" => { let x = uint(a[2]); let (l, u) = x.log2_bounds(); (l, u, x.log2_est()) }
                 "i" => { let x = int(a[2]); let (l, u) = x.log2_bounds(); (l, u, x.log2_est()) }
+                "p" => {
+                    // 2^n + d, d in {-1, 0, 1}: huge powers of two without megabytes of digits on the line
+                    let n: usize = a[2].parse().unwrap();
+                    let d: i8 = a[3].parse().unwrap();
+                    let x = UBig::ONE << n;
+                    let x = match d { 0 => x, 1 => x + UBig::ONE, _ => x - UBig::ONE };
+                    let (l, u) = x.log2_bounds();
+                    (l, u, x.log2_est())
+                }
                 "d" => { let x = dec(a[2], a[3], a[4]); let (l, u) = x.log2_bounds(); (l, u, x.log2_est()) }
                 "b" => { let x = bin(a[2], a[3], a[4]); let (l, u) = x.log2_bounds(); (l, u, x.log2_est()) }
                 _ => { let x = rat(a[2], a[3]); let (l, u) = x.log2_bounds(); (l, u, x.log2_est()) }
